@@ -89,6 +89,9 @@ func c12Families() []gram.Named {
 			s.Prec = []gram.PrecLevel{{Assoc: "left", Toks: []string{"'-'"}}}
 			return s
 		}()},
+		// a quoted string that is the alias of no token is an undefined symbol, too (in the middle and at the end of a rule)
+		{"undefined-string-in-the-middle", gram.Parse("S", abc, `S: TA "=>" TB`)},
+		{"undefined-string-at-the-end", gram.Parse("S", abc, `S: TA | S TB ","`)},
 		{"all-terminal-chain", gram.Parse("S", abc, "S: A TA ; A: B TB ; B: TC")},
 		// a token declared first without a number and numbered by a later line (the idiom of the shipped
 		// examples), next to several automatically numbered tokens: the automatic numbers must keep clear of it
